@@ -277,8 +277,8 @@ CLAIMED = {
              "psi exactly representable) and the limit eps -> 0, evaluates TLC's elements with sin, cos, cot computed to 40 digits in rational "
              "arithmetic and compares with Exp_SO3_psi, T_SO3_psi, T_SO3_inv_psi, T_SO3_dot, Exp_SE3_h and the maps themselves.",
         note="Claimed for the rotation-vector maps. Not covered: Log_SO3_A and Log_SE3_H (derivatives with respect to matrix entries). The quaternion "
-             "tangent maps T_SO3_quat_P / T_SO3_inv_quat_P are rational and decided under C01. Comparison tolerance 1e-8 relative to 1 + |value| "
-             "(the routines' closed forms are accurate to a few 1e-9 at |psi| ~ 1e-8). A corrupted element must evaluate differently (self-test).",
+             "tangent maps T_SO3_quat_P / T_SO3_inv_quat_P are rational and decided under C01. Comparison tolerance 1e-7 relative to 1 + |value| "
+             "(the routines' closed forms lose digits like 1e-16 / |psi|, about 1e-8 at |psi| ~ 1e-8; the defects found were errors of 1e-4 to 0.5). A corrupted element must evaluate differently (self-test).",
         technique="TLA+ exact symbolic differentiation (dual numbers over Laurent-trigonometric elements) by TLC, results replayed into the rotation routines at exactly representable points",
         ref="5/C03",
     ),
